@@ -645,7 +645,17 @@ pub fn xor_tokens(data: &[u8]) -> Option<Vec<(String, u64, u64, u64)>> {
 pub fn xor_case(v: &Value, evals: &mut usize, token_mismatch: &mut usize) -> Vec<Value> {
     let mut out = vec![];
     let fs: Vec<f64> = v["fs"].as_array().unwrap().iter().map(|x| f64::from_bits(x.as_u64().unwrap() << 49)).collect();
-    for (mi, per_m) in v["enc"].as_array().unwrap().iter().enumerate() {
+    // (TLC renders a function over 0..n as an object keyed by "0".."n")
+    let per_ms: Vec<Value> = match &v["enc"] {
+        Value::Array(a) => a.clone(),
+        Value::Object(o) => {
+            let mut ks: Vec<usize> = o.keys().map(|k| k.parse().unwrap()).collect();
+            ks.sort();
+            ks.iter().map(|k| o[&k.to_string()].clone()).collect()
+        }
+        _ => vec![],
+    };
+    for (mi, per_m) in per_ms.iter().enumerate() {
         let m: Option<u32> = if mi == 0 { None } else { Some(mi as u32 - 1) };
         for (ri, toks) in per_m.as_array().unwrap().iter().enumerate() {
             let regret = [0u32, 3, 100][ri];
